@@ -18,6 +18,7 @@ PROGRAMS = {
     "range-link-fail": "@db later\n@defl later, 300\n",
     "export-fail": "lab: nop\n@defl foo, @sizeof lab\n",          # unsolvable, never referenced: only an exporter notices
     "missing-include": "@include \"absent.inc\"\n",
+    "big": "@meta \"ID\" \"RAM\"\nvar:\n@endmeta\n@db 10\n@ds 3000, $ea\n@db 10, 1\n@ds 2000, $ea\n",      # several KiB, line-feed bytes early: partial writes show
 }
 ARCH_NOP = {"6502": "ea", "z80": "00", "sm83": "00"}
 
@@ -50,7 +51,7 @@ def run(tier, seed):
     for arch, prog, placement, omode, dbg, sp in itertools.product(
             archs, PROGRAMS, ("before", "after", "mixed"), ("stdout", "new", "stale", "nodir", "devfull"),
             ("none", "json", "arch", "json-nodir", "arch-nodir", "arch-json-nodir"), ("good", "bad", "none")):
-        if tier == "quick" and rng.random() < 0.75 and not (prog == "ok" and placement == "after" and sp == "good"):
+        if tier == "quick" and rng.random() < 0.75 and not (prog in ("ok", "big") and placement == "after" and sp == "good"):
             continue
         if dbg in ("arch-nodir", "arch-json-nodir") and arch == "z80":
             continue
@@ -135,8 +136,8 @@ def run(tier, seed):
         if got != [m_exit, m_out, m_of, m_msg]:
             chk.disagreements.append({"argv": argv, "program": prog, "impl": got + [sorted(written)], "model": m[:5]})
         # ---- the property itself, on the real binary
-        should_ok = sp != "bad" and omode not in ("nodir", "devfull") and (prog == "ok" or (prog == "export-fail" and dbg == "none")) and "nodir" not in dbg
-        image_ok = sp != "bad" and omode not in ("nodir", "devfull") and prog in ("ok", "export-fail")     # assembling and linking succeed, the image can be written
+        should_ok = sp != "bad" and omode not in ("nodir", "devfull") and (prog in ("ok", "big") or (prog == "export-fail" and dbg == "none")) and "nodir" not in dbg
+        image_ok = sp != "bad" and omode not in ("nodir", "devfull") and prog in ("ok", "big", "export-fail")     # assembling and linking succeed, the image can be written
         bad = None
         if rc not in (0, 1):
             bad = f"exit status {rc} (crash or usage error); stderr: {se.decode('utf-8', 'replace')[-160:]}"
@@ -155,6 +156,8 @@ def run(tier, seed):
                 bad = f"assembling/linking failed but export files were created: {sorted(written)}"
         if image_ok and not bad:
             want = bytes.fromhex(ARCH_NOP[arch]) + (bytes([1, 2, 9, 0, 0]) if prog == "ok" else b"")
+            if prog == "big":
+                want = bytes([10]) + b"\xea" * 3000 + bytes([10, 1]) + b"\xea" * 2000
             data = of if to_file else so
             if data != want:
                 bad = f"output {data.hex() if data is not None else None} differs from {want.hex()} ({'-o file' if to_file else 'stdout'})"
@@ -170,7 +173,7 @@ def run(tier, seed):
     chk.oblige("correspondence: the real binary (exit status, stdout, -o file, message) = Cli.main over the Model's phases on every combination",
                not chk.disagreements, json.dumps(chk.disagreements[:2])[:900])
     chk.coverage.update({"exhaustive": tier == "thorough", "program_kinds": hist,
-                         "exhaustive_note": "3 sub-commands x 6 program kinds (succeeding; failing while parsing, linking (undefined / deferred range), exporting; missing include) x option placement (before / after / split around the sub-command) x {stdout, new -o file, -o file with longer stale contents, -o file that cannot be created, -o file that cannot be written (/dev/full)} x {no export, -g, -g plus --gNL/--gSYM, each with one export file impossible to create} x {good, bad, no search path}: all combinations in thorough, a seeded quarter in quick (the succeeding program with options after the sub-command always)"})
+                         "exhaustive_note": "3 sub-commands x 7 program kinds (succeeding; succeeding with a 5 KiB image; failing while parsing, linking (undefined / deferred range), exporting; missing include) x option placement (before / after / split around the sub-command) x {stdout, new -o file, -o file with longer stale contents, -o file that cannot be created, -o file that cannot be written (/dev/full)} x {no export, -g, -g plus --gNL/--gSYM, each with one export file impossible to create} x {good, bad, no search path}: all combinations in thorough, a seeded quarter in quick (the succeeding program with options after the sub-command always)"})
     chk.assumptions = ["clap's parsing of the declared option grammar, process exit codes and file creation are OS / library behaviour: modelled (Cli.main) and observed here, not verified",
                        "with -o FILE the file is created (truncated) before assembling, so a failed run leaves an empty FILE: no bytes are written to it, which is what the statement asks"]
     return chk.finish(
